@@ -84,11 +84,11 @@ CLAIMED = {
    text="Coq theorems C06_record_converges (for every record, answer, configuration, separator and regex oracle satisfying the escape law, outside the known classes D5/D12: the rewritten record, "
         "as read back, passes the judge on the same answer and is a fixed point of the rewrite), C06_untouched_passes, and at FILE level C06_file_converges (for every flattened record list of a file with its includes, every initial state and "
         "scripted world: if the update completes without a known-finding flag and no command fails, the rewritten list as re-read passes under run_multi from the same state and world issuing exactly the same connects, requests and sleeps, and a "
-        "second update is a fixed point; premises retry>=1 and equal strictness shown necessary by counterexamples) with C06_written_is_updated_records, and at TEXT level C06_text_reparses (every file the updater writes parses back to that file's re-read updated records, for parse_file trees, under representability premises each shown necessary by a counterexample; the premise dangling_end is known finding D19, witness C06_dangling_end_refuted), about the model of update_test_file / update_record_with_output / from_actual_error / regex::escape. "
+        "second update is a fixed point; premises retry>=1 and equal strictness shown necessary by counterexamples) with C06_written_is_updated_records, and at TEXT level C06_text_reparses (every file the updater writes parses back to that file's re-read updated records, for parse_file trees, under representability premises each shown necessary by a counterexample; the premise dangling_end is known finding D19, witness C06_dangling_end_refuted), C06_run_depends_on_meaning (the runner's events, state and verdict depend only on the meaning of the script, locations aside) and END TO END C06_end_to_end_source (single file, from the file content before the update: the written file parses, passes against the same database from the same state with exactly the update's events, and a second update reproduces the same bytes), about the model of update_test_file / update_record_with_output / from_actual_error / regex::escape. "
         "File level also by correspondence: Runner::update_test_file on generated trees (mostly wrong expectations, includes, both separators, strict/default columns) with scripted databases, then run_file "
         "against the same database, then a second update; bytes compared with the model (parser+apply_record+update_record+display+trimmer), L1 evaluated on the implementation. Six defects found and fixed (D3 D4 D6 D7 D17 D8).",
    ref="4/C06", technique="Coq proof (record-level and file-level convergence) + differential correspondence with rerun and second update on real trees",
-   note="Trusted: Coq kernel; regex is_match oracle with the escape law as premise (tested); the text layer between the written bytes and the re-read records is C05's theorem (the composition is stated, not re-proved as one statement). Known findings D5, D12, D19 listed; D18 and D19 were found by these proofs (D18 fixed)."),
+   note="Trusted: Coq kernel; regex is_match oracle with the escape law as premise (tested); end to end proved for a single file; for include trees the per-file text theorem and the flat-list run theorem are both proved, their composition needs every file to be written once (a file included twice is rewritten twice, the last content wins: UpdateEndToEndEx.include_twice_last_write_wins). Known findings D5, D12, D19 listed; D18 and D19 were found by these proofs (D18 fixed)."),
  "C07": dict(
    text="Coq theorems C07_frame (only the expectation may change), C07_only_kind_change (query -> statement count N only for a statement completion), C07_skipped_unchanged, C07_failed_command_unchanged, "
         "C07_pass_keeps (a passing record keeps its expectation as written; row-wise mode), C07_file_frame_and_halt (file level: one record out per record in, same kind and position, markers/halts/non-executable records verbatim, every record from the first halt of the flattened list on - in whichever file - written exactly as it was). Correspondence: records before/after Runner::update_test_file compared field by field; records that pass (Runner::run "
